@@ -21,7 +21,7 @@ import gevent.queue
 
 from qs import jobs, misc, qserve, rpcserver
 
-from .kernel import Digest, HarnessError
+from .kernel import Digest, HarnessError, Violation
 
 T0 = 1_700_000_000.0
 
@@ -91,9 +91,10 @@ class FakeFile:
 
 
 class FakeSock:
-    def __init__(self, sim, name, epoch):
+    def __init__(self, sim, name, epoch, script_name=None):
         self.sim = sim
-        self.name = name
+        self.name = name  # unique connection id (script name, "~n" appended on reconnects)
+        self.script_name = script_name or name
         self.epoch = epoch  # server incarnation it belongs to
         self.inq = gevent.queue.Queue()
         self.closed = False
@@ -124,6 +125,9 @@ class Observer:
     def on_tick(self, kind, now):
         pass
 
+    def on_tick_done(self, kind, now):
+        pass
+
     def on_restart(self, now):
         pass
 
@@ -139,11 +143,14 @@ class QsSim:
         self.digest = Digest()
         self.seq = 0
         self.epoch = 0
-        self.conns = {}  # name -> FakeSock (live or half-closed)
+        self.conns = {}  # script name -> its current FakeSock (live or half-closed)
+        self.socks = {}  # unique connection id -> FakeSock
+        self.generations = {}
         self.sleepers = []  # heap of (due_mono, seq, waiter_event)
         self.timer_greenlets = []
         self.hub_errors = []
         self.stopping = False
+        self.violation = None
         self.counters = {}
         self._install()
         self._start_server()
@@ -170,6 +177,16 @@ class QsSim:
         if etype is not None and issubclass(etype, gevent.GreenletExit):
             return
         self.hub_errors.append((getattr(etype, "__name__", str(etype)), str(value)[:200]))
+
+    def _notify(self, fn, *args):
+        """Oracle callbacks run inside the SUT's greenlets; a Violation must not unwind
+        through server code, so it is parked here and raised by the driver."""
+        if self.violation is not None:
+            return
+        try:
+            fn(*args)
+        except Violation as v:
+            self.violation = v
 
     def count(self, key, n=1):
         self.counters[key] = self.counters.get(key, 0) + n
@@ -221,8 +238,9 @@ class QsSim:
     def _stamped_timer(self, name, fun):
         def tick():
             self._stamp("tick", name, self.clock.time())
-            self.observer.on_tick(name, self.clock.time())
+            self._notify(self.observer.on_tick, name, self.clock.time())
             fun()
+            self._notify(self.observer.on_tick_done, name, self.clock.time())
 
         tick.__name__ = name
         return tick
@@ -237,7 +255,7 @@ class QsSim:
             return
         rpc, args = req
         self._stamp("exec", sock.name, rpc, json.dumps(args, sort_keys=True))
-        self.observer.on_exec(sock.name, rpc, args, self.clock.time())
+        self._notify(self.observer.on_exec, sock.name, rpc, args, self.clock.time())
 
     def _on_response(self, sock, data):
         if self.stopping:
@@ -246,14 +264,15 @@ class QsSim:
         sock.outstanding = None
         self._stamp("resp", sock.name, data)
         if req is None:
-            raise HarnessError(f"response without request on {sock.name}: {data[:80]}")
-        self.observer.on_resp(sock.name, req[0], req[1], json.loads(data), self.clock.time())
+            self.hub_errors.append(("HarnessError", f"response without request on {sock.name}: {data[:80]}"))
+            return
+        self._notify(self.observer.on_resp, sock.name, req[0], req[1], json.loads(data), self.clock.time())
 
     def _on_shutdown(self, sock):
         if self.stopping:
             return
         self._stamp("shutdown", sock.name)
-        self.observer.on_shutdown(sock.name, self.clock.time())
+        self._notify(self.observer.on_shutdown, sock.name, self.clock.time())
 
     # ---- virtual time ----------------------------------------------------------
     def _virtual_sleep(self, seconds):
@@ -308,18 +327,26 @@ class QsSim:
     def connect(self, name):
         if self.is_live(name):
             return False
-        sock = FakeSock(self, name, self.epoch)
+        gen = self.generations.get(name, 0)
+        self.generations[name] = gen + 1
+        cid = name if gen == 0 else f"{name}~{gen + 1}"
+        sock = FakeSock(self, cid, self.epoch, script_name=name)
         self.conns[name] = sock
-        self._stamp("connect", name)
-        sock.greenlet = self.server.pool.spawn(self.server.handle_client, sock, (name, 0))
+        self.socks[cid] = sock
+        self._stamp("connect", cid)
+        sock.greenlet = self.server.pool.spawn(self.server.handle_client, sock, (cid, 0))
         return True
+
+    def cid(self, name):
+        s = self.conns.get(name)
+        return s.name if s is not None else None
 
     def disconnect(self, name):
         if not self.is_live(name):
             return False
         sock = self.conns[name]
         sock.eof_sent = True
-        self._stamp("eof", name)
+        self._stamp("eof", sock.name)
         sock.inq.put("")
         return True
 
@@ -329,7 +356,7 @@ class QsSim:
         sock = self.conns[name]
         sock.outstanding = (rpc, args)
         line = json.dumps((rpc, args)) + "\n"
-        self._stamp("send", name, line)
+        self._stamp("send", sock.name, line)
         sock.inq.put(line)
         return True
 
@@ -341,7 +368,7 @@ class QsSim:
 
     # ---- restart (C18) ---------------------------------------------------------
     def _kill_all(self):
-        gl = [s.greenlet for s in self.conns.values() if s.greenlet is not None and not s.greenlet.dead]
+        gl = [s.greenlet for s in self.socks.values() if s.greenlet is not None and not s.greenlet.dead]
         gl += [g for g in self.timer_greenlets if not g.dead]
         self.stopping = True
         try:
@@ -360,9 +387,10 @@ class QsSim:
         live = [n for n in self.conns if self.is_live(n)]
         self._kill_all()
         self.conns = {}
+        self.socks = {}
         self.epoch += 1
         self._stamp("restart", self.epoch)
-        self.observer.on_restart(self.clock.time())
+        self._notify(self.observer.on_restart, self.clock.time())
         self._start_server()
         gevent.idle()
         return live
